@@ -7,6 +7,9 @@ from mutants.specs import SPECS
 
 def main():
   bad = 0
+  import glob
+  for f in glob.glob(os.path.join(V, 'mutants', '*', '*.patch')):
+    os.remove(f)
   for prop, name, edits in SPECS:
     out = []
     for (path, old, new) in edits:
